@@ -38,6 +38,7 @@ fn main() {
         "C08" => vcheck::checks::c08::run(tier, seed),
         "C12" => vcheck::checks::hchecks::c12(tier, seed),
         "C17" => vcheck::checks::hchecks::c17(tier, seed),
+        "C10" => vcheck::checks::hchecks::c10(tier, seed),
         "C09" => vcheck::checks::c09::run(tier, seed),
         "C13" => vcheck::checks::c13::run(tier, seed),
         _ => {
